@@ -299,7 +299,10 @@ def _schedule_ops(world):
                 dev.offset_next_cycle_time(world.val(op['amount']))
             elif k == 'armfail':
                 # schedule_failure called at run time (e.g. while the machine is already down)
-                dev.schedule_failure(env.now + world.val(op['delay']), 'harness')
+                due = env.now + world.val(op['delay'])
+                dev.schedule_failure(due, 'harness')
+                for m in world.monitors:
+                    m.on_failure_armed(dev, due)
             elif k == 'setattr':
                 setattr(dev, op['attr'], world.val(op['value']))
             else:
@@ -312,6 +315,8 @@ def _schedule_ops(world):
             # so it is called from an event at time 0
             def arm(dev=dev, t=t):
                 dev.schedule_failure(t, 'harness')
+                for m in world.monitors:
+                    m.on_failure_armed(dev, t)
             arm.__name__ = 'op_arm_failure'
             env.schedule_event(0, HARNESS_ASSET, arm, EventType.OTHER_HIGH_PRIORITY, 'harness arms failure')
         else:
@@ -345,6 +350,9 @@ class Monitor:
         pass
 
     def after_op(self, i, op):
+        pass
+
+    def on_failure_armed(self, dev, due):
         pass
 
     def on_work_order_request(self, dev, tag, ok):
@@ -918,7 +926,7 @@ class UptimeMon(Monitor):
         self.st = {}
         for d in w.devices_of('proc'):
             s = {'oper': True, 'proc': False, 'up': 0, 'busy': 0, 'last_t': 0, 'sd': [], 'rs': [], 'out_at_down': None,
-                 'down_kind': None, 'part_before': None, 'out_before': None, 'fail_recs': 0, 'orders': []}
+                 'down_kind': None, 'part_before': None, 'out_before': None, 'fail_recs': 0, 'orders': [], 'armed': []}
             self.st[d.name] = s
             d.add_shutdown_callback(lambda p, f, part, s=s: self._sd(s, 'A', p, f, part))
             d.add_shutdown_callback(lambda p, f, part, s=s: self._sd(s, 'B', p, f, part))
@@ -934,6 +942,12 @@ class UptimeMon(Monitor):
             # callbacks while already down are legitimate only to report the part lost to a failure
             self.ctx.require(s['oper'] or (is_failure and part is not None),
                              'shutdown callbacks ran although the machine was already down', proc.name)
+            if s['oper'] and not is_failure:
+                # maintenance freezes the machine's pending events, scheduled failures included
+                for a in s['armed']:
+                    if a['live'] and a['frozen_at'] is None:
+                        a['frozen_at'] = self.w.now()
+                        a['was_frozen'] = True
             s['oper'] = False
             s['down_kind'] = 'failure' if is_failure else 'maintenance'
             s['out_at_down'] = proc._output
@@ -946,6 +960,27 @@ class UptimeMon(Monitor):
             self.ctx.require(not s['oper'], 'restored callbacks ran although the machine was operational', proc.name)
             s['oper'] = True
             s['down_kind'] = None
+            for a in s['armed']:
+                if a['live'] and a['frozen_at'] is not None:
+                    # ... and restoration resumes them, postponed by the time spent down
+                    a['due'] = a['due'] + (self.w.now() - a['frozen_at'])
+                    a['frozen_at'] = None
+
+    def on_failure_armed(self, dev, due):
+        s = self.st.get(dev.name)
+        if s is not None:
+            with self.ctx.notrace():
+                # scheduled while the machine is down: that event is not among the frozen ones
+                s['armed'].append({'due': self.ctx.z(due), 'frozen_at': None, 'live': True, 'was_frozen': False})
+
+    def before_clock_advance(self):
+        ctx = self.ctx
+        with ctx.notrace():
+            now = self.w.now()
+            for n, s in self.st.items():
+                for a in s['armed']:
+                    if a['live'] and a['frozen_at'] is None:
+                        ctx.require(a['due'] > now, 'a scheduled failure that is due has not struck although time advances', n)
 
     def _recv(self, s, proc, part):
         if self.w.probe_depth:
@@ -991,6 +1026,14 @@ class UptimeMon(Monitor):
                 if len(recs) > s['fail_recs']:
                     # a failure happened in this event: exactly the input part is gone, the finished one stays
                     ctx.goal('failure_occurred')
+                    live = [a for a in s['armed'] if a['live'] and a['frozen_at'] is None]
+                    ctx.require(len(recs) == s['fail_recs'] + 1, 'two failures of one machine in one event', n)
+                    ctx.require(ctx.Or(*[a['due'] == now for a in live]) if live else False,
+                                'a failure struck at an instant for which none was scheduled (a frozen one, or none at all)', n)
+                    ctx.goal_if('postponed_failure_struck', ctx.Or(*[a['due'] == now for a in live if a['was_frozen']])
+                                if any(a['was_frozen'] for a in live) else False)
+                    for a in s['armed']:
+                        a['live'] = False       # a failure cancels every other pending event of the machine
                     pb, ob = s['part_before'], s['out_before']
                     ctx.require(d._part is None, 'failure kept the part in process', n)
                     ctx.require(d._output is ob, 'failure dropped or changed the finished part', n)
